@@ -53,6 +53,15 @@ theorem C19_map_laws {α : Type} (cmp : α → α → Int) (h : CmpLaws cmp) (op
   ⟨reach_inv h ops, fun k y => reach_find_iff h ops k y, fun k y z => reach_unique h ops k y z,
    fun n k hk => reach_insert_find h ops n k hk, fun k nd => reach_remove_find h ops k nd⟩
 
+/-- **C19 (lower bound, every reachable state).**  `set_lower` answers with a member not below
+    the key that is the least such member; no answer means every member is below the key. -/
+theorem C19_lower_bound {α : Type} (cmp : α → α → Int) (h : CmpLaws cmp) (ops : List (Op α)) (k : α) :
+    let s := modelFinal cmp ({} : SetSt α) ops
+    (∀ y, (stepModel cmp s (.lower k)).2 = .lower (some y) →
+        y ∈ abs s ∧ cmp k y ≤ 0 ∧ ∀ z ∈ abs s, cmp k z ≤ 0 → (z = y ∨ cmp y z < 0))
+    ∧ ((stepModel cmp s (.lower k)).2 = .lower none → ∀ z ∈ abs s, cmp k z > 0) :=
+  reach_lower h ops k
+
 /-- non-vacuity of the map laws on a concrete reachable state: replacement is visible to the
     next lookup, the removed key is gone -/
 example :
